@@ -2,10 +2,18 @@
 
 Clauses decided:
 R1 every `LoopOutputStep._process_output` (CWLLoopOutputAllStep / CWLLoopOutputLastStep, enumerated
-   through the class table) orders `self.token_map[tag]` with `sorted(..., key=lambda t:
-   int(<last component of t.tag>))` (the int discipline of C01.R1: as text iteration 10 sorts before 2);
-   "all" wraps the ascending list in a ListToken tagged with the instance tag, "last" takes index -1 of
-   the ascending sort and retags it with the instance tag.
+   through the class table): every returned value that reads `self.token_map` must be selected from
+   `self.token_map[<tag parameter>]` by an ordering whose key is `int(<last component of the element's tag>)`
+   (the int discipline of C01.R1: as text iteration 10 sorts before 2 and 9 after 10).  Recognised equivalent
+   formulations: `sorted(S, key=)`, `name.sort(key=)` in place on every path to the return, `max/min(S, key=)`,
+   order-preserving copies (list/tuple/[:]/.copy()/identity comprehension), reversing views (reversed, [::-1],
+   reverse=True, negated key), key given as a lambda or a single-return helper, numeric comparison of all
+   components.  "all" wraps the *ascending* list in a ListToken tagged with the instance tag; "last" takes
+   index -1 of the ascending order (0 of the descending one, max of an ascending key, min of a negated key)
+   and retags it with the instance tag.  An output whose ordering cannot be established (arrival order,
+   a copy, a slice, text key, max without int key, unreadable key, unknown output shape) is *reported* as a
+   violation of the ordering obligation, never refused; returns that do not read token_map at all
+   (placeholders) carry no obligation, but at least one return must read it.
 R2 `LoopOutputStep.run`: the expected count of an instance is `int(<last component>)` of the
    IterationTerminationToken's tag, stored under the tag's prefix; data tokens are appended under the
    same prefix; the emission test `len(token_map[prefix]) == size_map[prefix]` (equality, defaults that
@@ -76,8 +84,9 @@ WFILE = "streamflow/cwl/step.py"
 
 META = {
     "explanation": (
-        "AST/def-use rules on every LoopOutputStep._process_output (numeric sort key on the last tag component, "
-        "last = index -1 of the ascending sort, all = ListToken with the instance tag), CFG rules on LoopOutputStep.run "
+        "AST/def-use rules on every LoopOutputStep._process_output (every output that reads token_map is selected by an int-keyed "
+        "ordering of token_map[tag]: sorted / in-place sort / max / min through copies, reversed views and key helpers; "
+        "last = greatest iteration number, all = ascending ListToken with the instance tag; an unestablished ordering is a violation), CFG rules on LoopOutputStep.run "
         "(count from the iteration-termination tag, emission test reachable from both arrival kinds, emission shape), "
         "flow-sensitive tag-expression canonicalisation on LoopCombinator._product (counter created with 0 / incremented "
         "before use), truth-table folding of the re-arm guard of LoopCombinatorStep.run, shape of "
